@@ -16,6 +16,7 @@ import ast
 import hashlib
 import os
 import types
+import textwrap
 import sys
 
 sys.path.insert(0, os.path.dirname(os.path.abspath(__file__)))
@@ -1178,6 +1179,34 @@ SPECS.append(dict(name="Opts.extend_server_ports_default", group="Opts", file=MA
 SPECS.append(dict(name="Opts.builtin_server_ports", group="Opts", kind="table", file=MAINF, func=None, target="server_ports", type="List Int",
                   theorem="Opts.extend_server_ports_eq_model"))
 
+# session.py key selection (C01, C15): `find_session_secrets` whole (the key-log lines of this client random; `str.lower` is the external
+# `str_lower`, instantiated with the model's `lower`; the statements that only build the log text
+# are dropped), and two fragments of `generate_keys`: the choice of the secret line (the (pre-)master-secret filter for TLS ≤ 1.2, the
+# "Missing Secrets" exits) and the block-size table. The key-derivation dispatch (`match tls_version:`) is not translated here.
+TKF = "tlexport/session.py"
+GROUPS["TlsKeys"] = dict(imports=["TLX.PyRt", "TLX.Keylog", "TLX.Pipeline"], options=["set_option linter.unusedVariables false"],
+                         decls=[])
+TK_ATTRS = {(KOBJ, "client_random"): ("TLX.Keylog.Key.clientRandom", "Str"), (KOBJ, "label"): ("TLX.Keylog.Key.label", "Str"),
+            (KOBJ, "value"): ("TLX.Keylog.Key.value", "Str")}
+SPECS.append(dict(name="TK.find_session_secrets", group="TlsKeys", file=TKF, func="Session.find_session_secrets",
+                  theorem="TlsKeys.find_session_secrets_eq_model", params=[], ret=f"List {KOBJ}",
+                  externals=[("str_lower", "List Nat → List Nat")], attr_funcs=TK_ATTRS, consts=TLSVER,
+                  locals={"secrets": f"List {KOBJ}"}, drop_stmts=["logging_string", "for secret in secrets:"],
+                  places=[("self.keylog", "keylog", f"List {KOBJ}", "r"), ("self.client_random", "client_random", "Bytes", "r"),
+                          ("self.tls_version", "tls_version", f"Option {VER}", "r")]))
+SPECS.append(dict(name="TK.select_secret", group="TlsKeys", file=TKF, func="Session.generate_keys", theorem="TlsKeys.select_secret_eq_model",
+                  select={"start": "secret_list = self.find_session_secrets()", "end": "try:\n    secret = secret_list[0]"},
+                  params=[("tls_version", f"Option {VER}")], exits=True, externals=[("str_lower", "List Nat → List Nat")],
+                  attr_funcs=TK_ATTRS, consts=TLSVER, outs=[("secret_list", f"List {KOBJ}")],
+                  places=[("self.keylog", "keylog", f"List {KOBJ}", "r"), ("self.client_random", "client_random", "Bytes", "r"),
+                          ("self.tls_version", "self_tls_version", f"Option {VER}", "r"), ("self.can_decrypt", "can_decrypt", "Bool", "rw")],
+                  calls={"self.find_session_secrets": dict(lean="TK.find_session_secrets str_lower keylog client_random self_tls_version",
+                                                           args=[], ret=f"List {KOBJ}")}))
+SPECS.append(dict(name="TK.block_size", group="TlsKeys", file=TKF, func="Session.generate_keys", theorem="TlsKeys.block_size_eq_model",
+                  select={"start": "block_size = 0", "end": "if algo in [AES, AESCCM, AESGCM, Camellia]:"},
+                  params=[("algo0", ALG)], outs=[("block_size", "Nat")],
+                  consts={**ALG_CONSTS, "cipher_suite['CryptoAlgo'][0]": ("algo0", ALG)}))
+
 THEOREMS = _uniq(theorem_of(s) for s in SPECS)
 
 
@@ -1198,7 +1227,7 @@ MODULES = group_modules(GROUPS)          # all groups (`TLX.Props.Translated` im
 
 # property → the groups whose translated functions its model functions are (what the check proves besides its own modules)
 CHECK_GROUPS = {
-    "C01": ["TlsSess", "Suites", "TlsSess2", "Decrypt", "Decrypt2"],
+    "C01": ["TlsSess", "Suites", "TlsSess2", "Decrypt", "Decrypt2", "TlsKeys"],
     "C02": ["QuicDissect", "QuicSess", "Pn", "Varint", "Frames", "QuicDissect2", "QuicTls", "QuicSess2", "QuicSess3"],
     "C03": ["TlsSess", "QuicDissect", "Varint", "QuicDissect2", "TlsSess2", "QuicSess2"],
     "C04": ["Demux", "QuicSess", "QuicDissect", "Main2"],
@@ -1211,7 +1240,7 @@ CHECK_GROUPS = {
     "C11": ["Checksum"],
     "C13": ["TlsSess", "TlsSess2"],
     "C14": ["Suites"],
-    "C15": ["KeySched", "QuicSess3", "Decrypt2"],
+    "C15": ["KeySched", "QuicSess3", "Decrypt2", "TlsKeys"],
     "C16": ["Pn", "QuicSess2"],
     "C17": ["Varint", "Frames"],
     "C18": ["Demux", "Main2"],
@@ -2040,6 +2069,60 @@ def _opts_cases(rng, call):
     return out
 
 
+def _tk_cases(rng, call):
+    """session.py key selection (group TlsKeys): `find_session_secrets` on toy key logs (ASCII text: `str_lower` is the model's `lower`);
+    the two fragments of `generate_keys` are executed from their own source text (the statements `py2lean.select` picks, wrapped in a
+    function: a `return` in the fragment gives None, reaching its end gives the locals)"""
+    import importlib
+    import inspect
+    ses = importlib.import_module("tlexport.session")
+    out = []
+    st = lambda x: "([" + ", ".join(str(ord(c)) for c in x) + "] : List Nat)"
+    kobj = lambda k: f"(⟨{st(k.label)}, {st(k.client_random)}, {st(k.value)}⟩ : TLX.Keylog.Key)"
+    klist = lambda ks: "([" + ", ".join(kobj(k) for k in ks) + "] : List TLX.Keylog.Key)"
+    trip = lambda ks: "[" + ", ".join(f"({st(k.label)}, {st(k.client_random)}, {st(k.value)})" for k in ks) + "]"
+    vopt = lambda v: "(none : Option TLX.Session.Ver)" if v is None or v.name == "UNDEFINED" else f"(some {TLSVER['TlsVersion.' + v.name][0]})"
+    fn = next(n for n in ast.walk(ast.parse(textwrap.dedent(inspect.getsource(ses.Session)))) if isinstance(n, ast.FunctionDef) and n.name == "generate_keys")
+
+    def frag(sel, params, result):
+        _, stmts = py2lean.select(fn, sel, "generate_keys")
+        f = ast.FunctionDef(name="frag", args=ast.arguments(posonlyargs=[], args=[ast.arg(arg=a) for a in params], kwonlyargs=[], kw_defaults=[], defaults=[]),
+                            body=list(stmts) + [ast.parse(f"return ({result},)").body[0]], decorator_list=[], type_params=[])
+        mod = ast.Module(body=[f], type_ignores=[])
+        ast.fix_missing_locations(mod)
+        ns = dict(vars(ses))
+        exec(compile(mod, "<fragment>", "exec"), ns)
+        return ns["frag"]
+    f_sel = frag({"start": "secret_list = self.find_session_secrets()", "end": "try:\n    secret = secret_list[0]"}, ["self", "tls_version"], "secret_list")
+    f_blk = frag({"start": "block_size = 0", "end": "if algo in [AES, AESCCM, AESGCM, Camellia]:"}, ["cipher_suite"], "block_size")
+    labels = ["CLIENT_RANDOM", "RSA", "CLIENT_HANDSHAKE_TRAFFIC_SECRET", "SERVER_HANDSHAKE_TRAFFIC_SECRET", "CLIENT_TRAFFIC_SECRET_0", "client_random", "X"]
+    for i in range(6):
+        cr = bytes(rng.randrange(256) for _ in range(rng.choice([0, 1, 2, 32])))
+        other = bytes(rng.randrange(256) for _ in range(2))
+        crs = lambda: rng.choice([cr.hex(), cr.hex().upper(), cr.hex().capitalize(), other.hex(), cr.hex() + "0", ""])
+        kl = [types.SimpleNamespace(label=rng.choice(labels), client_random=crs(), value=rng.choice(["ab", "", "zz"])) for _ in range(rng.randint(0, 5))]
+        v = rng.choice([None] + list(ses.TlsVersion))
+        me = types.SimpleNamespace(keylog=kl, client_random=cr, tls_version=v, can_decrypt=True, server_ip=b"", client_ip=b"", server_port=1,
+                                   client_port=2, binary_to_ip=lambda x: x)
+        me.find_session_secrets = lambda me=me: ses.Session.find_session_secrets(me)
+        if i % 2 == 0:
+            k, r = call(ses.Session.find_session_secrets, me)
+            out.append(("(fun kl cr v => (TK.find_session_secrets TLX.Keylog.lower kl cr v).map fun k => (k.label, k.clientRandom, k.value))",
+                        f"{klist(kl)} {_b(cr)} {vopt(v)}", trip(r)))
+        else:
+            k, r = call(f_sel, me, v)
+            exp = (f"(PyRt.Exit.ret, {_bool(me.can_decrypt)}, ([] : List (List Nat × List Nat × List Nat)))" if r is None
+                   else f"(PyRt.Exit.fall, {_bool(me.can_decrypt)}, {trip(r[0])})")
+            out.append(("(fun kl cr v => match TK.select_secret TLX.Keylog.lower v kl cr v true with "
+                        "| .ok e s => (e, s.can_decrypt, s.secret_list.map fun k => (k.label, k.clientRandom, k.value)) "
+                        "| .raised _ s => (PyRt.Exit.brk, s.can_decrypt, []))", f"{klist(kl)} {_b(cr)} {vopt(v)}", exp))
+    for name, (term, _) in ALG_CONSTS.items():
+        k, r = call(f_blk, {"CryptoAlgo": (getattr(ses, name), False)} if hasattr(ses, name) else None)
+        if k == "ok":
+            out.append(("(fun a => (TK.block_size a).block_size)", term, str(r[0])))
+    return out
+
+
 def _d2_cases(rng, call):
     """Decryptor.__init__ (group Decrypt2) on an object made without it, with the real `cryptography` classes (ARC4 keys of 16 / 3 bytes
     or None, `ChaCha20(key)` without a nonce); the attributes the constructor does not assign are sentinels on the Lean side and
@@ -2748,6 +2831,7 @@ def _cases(rng, n):
         out.extend(_qs3_cases(rng, call))
         out.extend(_d2_cases(rng, call))
         out.extend(_opts_cases(rng, call))
+        out.extend(_tk_cases(rng, call))
         for _ in range(2):
             out.extend(_bld_cases(rng, call))
         # output builders
